@@ -138,8 +138,8 @@ func sxStrs(l []string) string {
 
 // ---------- prefix maps ----------
 
-var globals = []string{"derive", "d", "my", "generate", "deriveX", "X_", "derived", "gen_", "D", "", "deriv", "goderive"}
-var fresh = []string{"eq", "cmp", "hsh", "srt", "fm", "ky", "st", "mn", "mx", "uq", "ct", "cpy", "zz", "mak"}
+var globals = []string{"derive", "d", "my", "generate", "deriveX", "X_", "derived", "gen_", "D", "", "deriv", "goderive", "go", "type", "derive_"}
+var fresh = []string{"eq", "cmp", "hsh", "srt", "fm", "ky", "st", "mn", "mx", "uq", "ct", "cpy", "zz", "mak", "map", "select", "range", "func", "sameStruct", "orderingOf", "hashCodeOf", "sortedCopyOf", "uniqueValuesOf"}
 var exts = []string{"X", "Of", "_", "2", "s", "ed", "Set", "All"}
 
 // genConfig draws a prefix map. minCut is the shortest cut used for nesting overrides.
@@ -694,6 +694,9 @@ func Run(cfg hx.Config) (*hx.Meta, error) {
 			}
 		}
 		for _, n := range names {
+			if !validIdent(n) {
+				continue // a prefix that is a keyword (go, map, ...) is not a call name by itself
+			}
 			jobs = append(jobs, job{cfg.Goderive, tbl.Plugins, c, n})
 		}
 	}
@@ -758,7 +761,7 @@ func Run(cfg hx.Config) (*hx.Meta, error) {
 		label string
 	}
 	var bjobs []bjob
-	fixedGlobals := []string{"d", "generate", "deriveX", "my", ""}
+	fixedGlobals := []string{"d", "generate", "deriveX", "my", "", "go", "derived"}
 	for bi, b := range bats {
 		for gi, g := range fixedGlobals {
 			if !thorough && (gi+bi)%2 == 1 && bi > 0 {
@@ -822,6 +825,8 @@ func Run(cfg hx.Config) (*hx.Meta, error) {
 		}(wi)
 	}
 	wg.Wait()
+
+	s.runMulti()
 
 	write := func(name string, lines []string) {
 		if len(lines) == 0 {
